@@ -253,13 +253,31 @@ func (s *settings) GetBySwampName(swampName name.Name) setting.Setting {
 	s.mu.RLock()
 	defer s.mu.RUnlock()
 
-	if len(s.patterns) > 0 {
-		for _, pi := range s.patterns {
-			// compare if the pattern is math with the swamp name
-			if swampName.ComparePattern(pi.GetPattern()) {
-				return pi
-			}
+	// Several registered patterns can match one swamp name (e.g. users/*/* and
+	// users/logs/*). The most specific one wins, independent of the map
+	// iteration order: exact name, then realm/*, then */swamp, then */*.
+	// For a given name every rank belongs to at most one pattern, so there are no ties.
+	var best setting.Setting
+	bestRank := 0
+	for _, pi := range s.patterns {
+		p := pi.GetPattern()
+		// compare if the pattern is math with the swamp name
+		if !swampName.ComparePattern(p) {
+			continue
 		}
+		rank := 0
+		if p.GetRealmName() == "*" {
+			rank += 2
+		}
+		if p.GetSwampName() == "*" {
+			rank++
+		}
+		if best == nil || rank < bestRank {
+			best, bestRank = pi, rank
+		}
+	}
+	if best != nil {
+		return best
 	}
 
 	// ha nem találunk olyan beállítást, ami a megadott mintához tartozik, akkor visszaadjuk az alapértelmezett beállítást
